@@ -55,6 +55,13 @@ class Report:
             h["stopped_after_counterexamples"] = True
         if not ex.exhausted:
             self.inconclusive.append("%s: path tree not exhausted within the time budget (%d paths explored)" % (name, ex.paths))
+        nun = sum(1 for r in ex.results if r["status"] == "unsupported")
+        if nun:
+            why = next(r.get("why") for r in ex.results if r["status"] == "unsupported")
+            self.inconclusive.append("%s: %d path(s) left the modelled fragment (%s): not covered by the claim" % (name, nun, why))
+        nb = sum(1 for r in ex.results if r["status"] == "budget")
+        if nb:
+            self.inconclusive.append("%s: %d path(s) exceeded the per-path budget" % (name, nb))
         for r in ex.results:
             if r["status"] == "harness_error":
                 self.harness_errors.append("%s: %s %s" % (name, r.get("why"), r.get("tb", "")))
